@@ -187,6 +187,47 @@ pub fn replay(fctx: &fuzz::Ctx, lines: &[Value], seed: u64, rep: &mut Report) {
     }
 }
 
+/// Command-line texts beyond whole seconds: whatever spelling a flag accepts, the duration it yields is not zero
+/// (a positive value below the clock's resolution must not round to an accepted zero) and can be used.
+pub fn clap_texts(fctx: &fuzz::Ctx, seed: u64, rep: &mut Report) {
+    let mut rng = StdRng::seed_from_u64(seed ^ 0x51ab);
+    let texts = ["0", "00", "+0", "0.0", "0e5", "0.0000000001", "1e-10", "4e-10", "0.0000000004", "1e-30", "-0", "-1", "abc", "", " 1", "0x0",
+                 "1", "0.5", "1.5", "18446744073709551615", "18446744073709551616", "1e30", "nan", "inf"];
+    for flag in ["--read-timeout", "--write-timeout", "--connect-timeout"] {
+        for text in texts {
+            rep.evaluations += 1;
+            rep.distinct.insert(hash_of(&(flag, text)));
+            let args = vec!["prog".to_string(), format!("{flag}={text}")];
+            let parsed = catch_unwind(AssertUnwindSafe(|| Flags::try_parse_from(args.clone())));
+            let case = json!({"kind":"settings-clap-text","flag":flag,"text":text});
+            let t = match parsed {
+                Err(_) => {
+                    rep.violation("C18", &format!("settings via clap: panic while parsing a flag value: {}", crate::valve::first_line(&take_panic())), case);
+                    continue;
+                }
+                Ok(Err(_)) => continue, // rejected: fine for every text
+                Ok(Ok(f)) => f.timeouts,
+            };
+            let (r, w) = TimeoutSettings::get_read_and_write_or_defaults(&Some(t));
+            let c = TimeoutSettings::get_connect_or_default(&Some(t));
+            if [r, w, c].iter().any(|d| *d == Some(Duration::ZERO)) {
+                rep.violation("C18", "settings via clap: a flag value that denotes a zero duration is accepted", case.clone());
+            }
+            for name in ["valve::query", "proto:java"] {
+                let base = fuzz::base_for(&mut rng, fctx, name);
+                let script = base.script();
+                let mut c2 = base.cfg.clone();
+                c2["retries"] = Value::Null;
+                let rec = call_with_timeouts(name, &c2, &script, t);
+                rep.evaluations += 1;
+                if let Outcome::Panic { msg } = &rec.outcome {
+                    rep.violation("C18", &format!("accepted settings (via clap) panic in use: {}", crate::valve::first_line(msg)), case.clone());
+                }
+            }
+        }
+    }
+}
+
 enum Base2 {
     Keep(fuzz::Base),
 }
